@@ -487,7 +487,7 @@ def run(tier):
     ck.count("natural_order_pairs", len(cases))
 
     # ---- generated schemas -----------------------------------------------------------
-    nschemas = 100 if quick else 1500
+    nschemas = 150 if quick else 1500
     specs = []
     for i in range(nschemas):
         spec = G.gen_spec(rng, size=rng.randint(1, 3), adversarial=i % 3 != 0)
@@ -552,7 +552,7 @@ def run(tier):
     import time
     ck.extra['t_sort'] = round(time.time() - ck.t0, 1)
     # (M) single-edit mutants
-    nmut = 3 if quick else 8
+    nmut = 4 if quick else 8
     cases, meta = [], []
     for spec, mode, s in specs:
         for _ in range(nmut):
@@ -604,6 +604,7 @@ def run(tier):
     ck.extra['t_mut'] = round(time.time() - ck.t0, 1)
     # (E) extension pairs
     next_ = 2 if quick else 4
+    ecases, emeta = [], []
     for spec, mode, _s in specs:
         sdl_a = G.spec_to_sdl(spec)
         s = build_schema(sdl_a)
@@ -651,6 +652,11 @@ def run(tier):
             ch = find_schema_changes(ext, both) + find_schema_changes(both, ext)
             if ch:
                 viol(key, f"find_schema_changes(extend, together) reports {ch[0].description}", rep)
+            # the model: extend (enc sA) (enc B) and build (enc (A + B)) against the real results
+            ecases.append([7] + G.encode_schema(s) + G.w_defs(doc))
+            emeta.append((key, rep, "Extend.extend", G.encode_schema(ext)))
+            ecases.append([6] + G.w_defs(parse(sdl_a + "\n\n" + sdl_b)))
+            emeta.append((key, rep, "Build.build", G.encode_schema(both)))
         # no-op documents return the identical object
         noops = ["{ a }", "query Q { __typename }", "fragment F on %s { __typename }" % spec.query,
                  "query { ...F } fragment F on %s { __typename }" % spec.query]
@@ -674,6 +680,12 @@ def run(tier):
         except Exception as e:  # noqa: BLE001
             viol("addscalar:" + sdl_a, f"extend with 'scalar ZzAdded' raised {type(e).__name__}: {e}",
                  {"relation": "extend adds exactly the new type", "sdl_a": sdl_a})
+    for (key, rep, what, want), o in zip(emeta, m.run_batch(ecases)):
+        if o != [1] + want:
+            j = next((j for j, (a, b) in enumerate(zip(o, [1] + want)) if a != b), -1)
+            viol(key, f"model {what} differs from the implementation's schema (wire offset {j})",
+                 dict(rep, impl_around=want[max(0, j - 21):j + 9], model_around=o[max(0, j - 20):j + 10]))
+    ck.count("model_extend_build_cases", len(ecases))
     ck.samples.append({"base_sdl": G.spec_to_sdl(specs[0][0])[:600]} if specs else {})
     return ck.finish()
 
